@@ -125,7 +125,73 @@ def cases(tier, seed):
                          'variant': 'separated' if i % 4 == 2 else 'plain',
                          'nmax': 36 if q else 48},
                   'seed': int(r.randint(1000))})
+  # LMNN with a strongly anisotropic start: the target neighbours are chosen
+  # once, by Euclidean distance, but the margins live in the learned space,
+  # where the "nearest" target neighbour may well be the farthest - so an
+  # impostor can sit inside the margin of a closer (Euclidean) neighbour
+  # without being inside that of the last one.  Few points, separated
+  # classes: margins are violated sparsely.
+  for i in range(24 if q else 600):
+    r = rng_for('c10-aniso', seed, i)
+    d = int(r.randint(2, 5))
+    out.append({'est': 'LMNN', 'zero': False, 'duplicates': False,
+                'params': {'init': '@aniso', 'n_components': None,
+                           'n_neighbors': int(2 + i % 2),
+                           'regularization': [0.5, 0.1, 0.9][i % 3],
+                           'learn_rate': [1e-6, 1e-3, 0.1][(i // 2) % 3],
+                           'max_iter': int(r.randint(3, 9)),
+                           'min_iter': 0, 'convergence_tol': 1e-3},
+                'ds': {'seed': int(r.randint(2**31 - 1)), 'd': d,
+                       'classes': int(2 + i % 2),
+                       'variant': ['separated', 'plain'][i % 4 == 3],
+                       'nmax': [12, 16, 24][i % 3], 'nmin': 8},
+                'seed': int(r.randint(1000))})
+  # ... and the same situation by construction ("rungs"): every point's
+  # Euclidean-nearest target neighbour lies along a direction the start
+  # stretches a hundredfold, its second one along a direction it keeps, and
+  # the other class sits at a learned distance between the two margins - the
+  # push term is active for the *first* target neighbour only
+  for i in range(8 if q else 200):
+    r = rng_for('c10-rungs', seed, i)
+    out.append({'est': 'LMNN', 'zero': False, 'duplicates': False,
+                'rungs': {'m': int(r.randint(3, 6)),
+                          'stretch': float(r.choice([30.0, 100.0, 300.0])),
+                          'gap': float(r.uniform(1.7, 3.0)),
+                          'd': int(r.randint(2, 5))},
+                'params': {'init': '@rungs', 'n_components': None,
+                           'n_neighbors': 2,
+                           'regularization': [0.5, 0.1, 0.9][i % 3],
+                           'learn_rate': [1e-7, 1e-5, 1e-3][(i // 2) % 3],
+                           'max_iter': int(r.randint(2, 6)),
+                           'min_iter': 0, 'convergence_tol': 1e-3},
+                'ds': {'seed': int(r.randint(2**31 - 1)), 'd': 2,
+                       'classes': 2, 'variant': 'plain', 'nmax': 12},
+                'seed': int(r.randint(1000))})
   return out
+
+
+def _rungs(spec):
+  """(X, y, L0) of the 'rungs' family."""
+  g = spec['rungs']
+  r = rng_for('c10-rungs-data', spec['ds']['seed'])
+  d, m = g['d'], g['m']
+  # increasing, pairwise different spacings between 1 and 1.3 (no ties)
+  xs = np.cumsum(1.0 + 0.3 * np.sort(r.rand(m)))
+  rows, lab = [], []
+  for cls, x0 in ((0, 0.0), (1, xs[-1] - xs[0] + g['gap'])):
+    for x in xs:
+      for h in (0.0, 0.5 + 0.05 * r.rand()):
+        rows.append([x - xs[0] + x0, h] +
+                    list(0.01 * r.randn(d - 2)))
+        lab.append(cls)
+  P = np.array(rows)
+  Q = np.linalg.qr(r.randn(d, d))[0]
+  sv = np.ones(d)
+  sv[1] = g['stretch']
+  X = P.dot(Q.T)                 # the construction in a rotated frame
+  L0 = (Q * sv).T                # L0 x = diag(sv) Q' x
+  perm = r.permutation(len(X))
+  return X[perm], np.array(lab)[perm], L0
 
 
 def required(tier):
@@ -186,6 +252,11 @@ def run_case(spec, j):
       a, b = rd.choice(len(Xd), 2, replace=False)
       Xd[a] = Xd[b]
     ds = dict(ds, X=Xd)
+  if spec.get('rungs'):
+    Xr, yr, L0r = _rungs(spec)
+    ds = dict(ds, X=Xr, y=yr, t=yr.astype(float), d=Xr.shape[1], n=len(Xr))
+    spec = dict(spec, params=dict(spec['params'], init=L0r))
+    j.count('lmnn.rungs-family')
   X = np.asarray(ds['X'], dtype=float)
   y = ds['t'] if name == 'MLKR' else ds['y']
   n, d = X.shape
